@@ -67,9 +67,8 @@ theorem foldl_range_eq (ind : List Char) : ∀ (n : Nat) (s : St),
 
 variable {o : Opts} {f : ScalarFns}
 
-theorem emit_litStr (ho : FragOpts o) (hi : o.indentStep = 2) (s : List Char) (hs : LitOk s) :
+theorem emit_litStr (hy : o.yaml12 = false) (hi : o.indentStep = 2) (s : List Char) (hs : LitOk s) :
     emit o f (.litStr s) = .ok (litText s) := by
-  have hy := ho.yaml12
   have hni : (firstLineLeadingSpaces (trimEndNl s) > 0) = False := by simp [hs.noIndicator]
   have hce : (trimEndNl s).isEmpty = false := by
     cases h : trimEndNl s with
